@@ -1,6 +1,7 @@
 import Cactus.Lemmas.Basic
 import Cactus.Lemmas.Table
 import Cactus.Lemmas.PayAsYouGo
+import Cactus.Lemmas.Shared.OneStep   -- `Shared.rcDrop_emptyTable_log` (also used by `Props/C07.lean`)
 /-!
 # C14 — objects without recorded adoptions pay no tracing cost
 
@@ -24,28 +25,8 @@ open State
 same step: in particular no trace is started (drop.rs:134-146). -/
 theorem C14_drop_no_trace (s : State) (o : Nat) (ob : Obj)
     (hc : s.cell o = some ob) (hl : ob.links = some []) :
-    (s.rcDrop o).log = s.log := by
-  unfold State.rcDrop
-  simp only [hc, hl]
-  cases hs : ob.strong with
-  | uninit => simp
-  | cnt n =>
-    cases n with
-    | zero => simp
-    | succ n =>
-      simp only [List.isEmpty_nil, if_true]
-      have hf := (cell_some_get s o ob hc).2
-      split
-      · unfold State.beginSingle
-        rw [cell_setObj_same s o ob _ hc]
-        simp only [hf]
-        split
-        · rename_i heq
-          cases heq
-          simp only []
-          split <;> simp
-        · simp
-      · rfl
+    (s.rcDrop o).log = s.log :=
+  Shared.rcDrop_emptyTable_log s o ob hc hl
 
 /-- cloning a handle never starts a trace and never touches a table: `inc_strong` only (rc.rs:1053) -/
 theorem C14_clone_no_trace (s : State) (o : Nat) : (s.incStrong o).log = s.log := by
